@@ -189,10 +189,10 @@ static void emit(struct vh_buf *b)
 	fputc('\n', out);
 	out_bytes += strlen(b->p) + 1;
 	pthread_mutex_unlock(&out_mx);
-	if (out_bytes > 3000000000ull) {
+	if (out_bytes > 700000000ull) {
 		/* a trace this long means the client is spinning */
 		fflush(out);
-		fprintf(stderr, "HANG: trace exceeds 3 GB\n");
+		fprintf(stderr, "HANG: trace exceeds 700 MB\n");
 		_exit(3);
 	}
 }
@@ -597,6 +597,8 @@ static void conn_reset(void)
 		vh_bput(&evb, "\"");
 		ev_end(false);
 	}
+	if (query_in_sbuf && exq_i < exq_n)
+		exq_i++; /* a query abandoned half-written still consumes its directive (or the script would replay it for ever) */
 	sbuf_n = 0;
 	scalls_n = 0;
 	query_in_sbuf = false;
